@@ -177,6 +177,15 @@ class BaseEval:
         return rec(v)
 
 
+def _literal_ints(a):
+    """[1, 2] / (1, 2) / 2 -> list of ints; None when any element is not an int literal"""
+    if isinstance(a, ast.Constant) and isinstance(a.value, int) and not isinstance(a.value, bool):
+        return [a.value]
+    if isinstance(a, (ast.List, ast.Tuple)) and a.elts and all(isinstance(e, ast.Constant) and isinstance(e.value, int) and not isinstance(e.value, bool) for e in a.elts):
+        return [e.value for e in a.elts]
+    return None
+
+
 def check_call_bases(ctx, f: FunctionInfo, callee_short: str, formal: str, rule="R-BASE", required=False):
     """At every call f -> callee, the base of the actual bound to `formal` must equal the formal's base."""
     model = ctx.model
@@ -191,7 +200,22 @@ def check_call_bases(ctx, f: FunctionInfo, callee_short: str, formal: str, rule=
             continue
         n += 1
         got = ev.base_of(a, c)
-        if got is None:
+        lit = _literal_ints(a)
+        if got is None and lit is not None and want in ("Base0", "Base1"):
+            # a literal cannot be typed, but it can be range-checked against the callee's base and the number of listed subsystems
+            dims = b.get("dim")
+            n_sub = len(dims.elts) if isinstance(dims, (ast.List, ast.Tuple)) and not any(isinstance(e, ast.Starred) for e in dims.elts) else None
+            lo = 1 if want == "Base1" else 0
+            hi = None if n_sub is None else n_sub - 1 + lo
+            bad = [v for v in lit if v < lo or (hi is not None and v > hi)]
+            if bad:
+                ctx.ob(rule, f, key, False, f"literal `{unparse(a)[:40]}`: {bad[0]} is outside the {want} range {lo}..{hi if hi is not None else 'n'} of `{formal}` of {callee_short.split('.')[-1]}"
+                       + (f" ({n_sub} subsystems listed in `{unparse(dims)[:40]}`)" if n_sub is not None else ""), c)
+            elif hi is not None or want == "Base1":
+                ctx.ob(rule, f, key, True, f"literal `{unparse(a)[:40]}` lies in the {want} range {lo}..{hi if hi is not None else 'n'}", c)
+            else:
+                ctx.ob(rule, f, key, None, f"literal `{unparse(a)[:40]}`: number of subsystems not literal, range not checkable", c, required=False)
+        elif got is None:
             ctx.ob(rule, f, key, None, f"base of `{unparse(a)[:50]}` not determined", c, required=False)
         elif got == want:
             ctx.ob(rule, f, key, True, f"`{unparse(a)[:50]}` is {got}", c)
